@@ -187,6 +187,9 @@ var vComposites = []vEntry{
 	{"Array(UInt64)", func() {
 		vOfLeaf("Array(UInt64)", true, func() ColumnOf[[]uint64] { return new(ColUInt64).Array() }, vGenSlice(vGenU64), vEqSlice(vEqU64))
 	}},
+	{"Array(UInt8)", func() {
+		vOfLeaf("Array(UInt8)", true, func() ColumnOf[[]uint8] { return new(ColUInt8).Array() }, vGenSlice(vGenU8), vEqSlice(vEqU8))
+	}},
 	{"Array(String)", func() {
 		vOfLeaf("Array(String)", true, func() ColumnOf[[]string] { return new(ColStr).Array() }, vGenSlice(vGenStr), vEqSlice(vStrEq))
 	}},
@@ -280,6 +283,9 @@ func vTupleRoundTrip() {
 
 // VerifC01Composites: Array / Nullable / LowCardinality / Map / Tuple up to depth 2.
 func VerifC01Composites() {
-	k := verifChoice("type", len(vComposites))
+	k := verifParam("type", -1)
+	if k < 0 {
+		k = verifChoice("type", len(vComposites))
+	}
 	vComposites[k].run()
 }
